@@ -220,7 +220,8 @@ def execute(case, prefix: Sequence[int], line_level: bool) -> Dict[str, Any]:
         state_src["c"] = c
         res["c"] = c
         sub = 30 if "subdiv" in config else 0
-        sets = [DataSet("col", "dA", "", "fileA", fcls, sub, [cd.ALL_MESSAGE_TYPES], md)]
+        # dA takes everything; in the two-set configurations its list names a concrete type next to the wildcard
+        sets = [DataSet("col", "dA", "", "fileA", fcls, sub, [cd.ALL_MESSAGE_TYPES, cd.MT_CLIENT_SET_NAME] if config.startswith("two") else [cd.ALL_MESSAGE_TYPES], md)]
         if config.startswith("two"):
             # the 32-slot msg_types array of an ADD_DATA_SET request as a client fills it: used slots need not be adjacent
             sets.append(DataSet("col", "dB", "", "fileB", fcls, 0, [cd.MT_CLIENT_SET_NAME, 0, cd.MT_MODULE_READY] + [0] * 29, md))
@@ -465,7 +466,9 @@ def scripts(n: int) -> List[Tuple[str, ...]]:
 HOT2 = [("flush", "flush"), ("flush", "early"), ("flush", "restart"), ("restart", "flush"), ("subdiv", "early"), ("flush", "none"), ("early", "restart"),
         ("subdiv", "subdiv"), ("flush", "pause")]
 HOT3 = [("flush", "restart", "flush"), ("early", "restart", "subdiv"), ("flush", "flush", "early"), ("subdiv", "restart", "subdiv"), ("flush", "pause", "resume"),
-        ("early", "flush", "early"), ("pause", "flush", "resume"), ("restart", "flush", "flush"), ("flush", "early", "restart")]
+        ("early", "flush", "early"), ("pause", "flush", "resume"), ("restart", "flush", "flush"), ("flush", "early", "restart"),
+        # messages that are still waiting for their first flush when the recording is paused and resumed
+        ("early", "pause", "resume"), ("early", "pause", "early")]
 
 
 def plan(tier: str):
@@ -492,7 +495,7 @@ def plan(tier: str):
             triggers = sum(1 for o in ops if o in ("flush", "subdiv", "none", "restart"))
             if len(ops) <= 2:
                 chosen = combos
-            elif not triggers:
+            elif not triggers and not ("pause" in ops and ops[0] == "early"):
                 continue
             else:
                 k += 1
